@@ -1756,11 +1756,11 @@ class L(RLC):
         m = mna._cpt_branch_index(self)
 
         if n1 >= 0:
-            mna._B[n1, m] = 1
-            mna._C[m, n1] = 1
+            mna._B[n1, m] += 1
+            mna._C[m, n1] += 1
         if n2 >= 0:
-            mna._B[n2, m] = -1
-            mna._C[m, n2] = -1
+            mna._B[n2, m] -= 1
+            mna._C[m, n2] -= 1
 
         if mna.kind == 'dc':
             Z = 0
